@@ -9,8 +9,29 @@ view's "extended community recombine" translation, Community and LargeCommunity 
 are compared with coq/model/{YExtCom,YRestEc,YCommunity,YLargeCom}.v evaluated inside Coq, on
 the oracle's inputs plus a malformed-text stream; the hand-copied name tables of the model are
 compared with the live dictionaries of yabgp/common/constants.py.
+
+Lists: besides random mixed lists, for EVERY kind (each of the 18 extended wire formats, standard,
+large) lists with 2 and 3 members of the SAME kind with DIFFERENT values, in both orders, with
+members of other kinds in between, through BOTH views (json_to_bin and send/update); the three
+attributes together in one request; and the law "the recombination of a list is the concatenation
+of the recombinations of its members" checked on the implementation (no state may be carried from
+one member to the next; coq/model/YRestEc.v [rest_ec] is a map over the list and is compared with
+both views on exactly these lists).
+
+Sessions: the peering is a real BGPPeering driven by harness/session.py's Driver; the remote
+capabilities the views consult are the ones the REAL session recorded from the peer's OPEN (they
+are pinned only for the capability variants of the correspondence run).  REST reads (every GET that
+is not an action, HEAD, requests without credentials, and the guarded POSTs, which are refused
+outside Established) are issued in every pre-Established FSM state (Idle, Connect, OpenSent,
+OpenConfirm) of a first session, of a session after a loss, after a manual stop/start and with a
+peer without the 4-octet-AS capability; then the session is completed and the round-trip posts are
+made: every result must equal the result in the same session without the reads, and every read or
+refused request must leave CONF.bgp.running_config and the abstract session state (Driver.state)
+unchanged.  The same no-effect oracle runs on reads, refused posts and json_to_bin in Established.
 """
 import base64
+import copy
+import itertools
 import json
 import struct
 
@@ -210,37 +231,157 @@ def gen_large(ctx):
 
 
 # ------------------------------------------------------------------------------------------
-# the implementation: a real Established peering + the real Flask application
+# the implementation: a real peering driven to Established + the real Flask application
 # ------------------------------------------------------------------------------------------
+FSM_NAME = {1: 'Idle', 2: 'Connect', 3: 'Active', 4: 'OpenSent', 5: 'OpenConfirm', 6: 'Established'}
+
+
+def session_scripts():
+    """name -> (steps, does the peer announce the 4-octet-AS capability).  A step is ('ev', driver event)
+    or ('rp', read point name, FSM state expected there): the places where REST reads may be interleaved"""
+    import explore
+    m = dict(explore.messages())
+    open2 = explore.frame(1, explore.open_body(asn=65002, caps=(b'\x02\x06\x01\x04\x00\x01\x00\x01',
+                                                                  b'\x02\x02\x02\x00')))
+
+    def attempt(c, tag='', op=m['open_ok']):
+        return [('rp', 'connect' + tag, 2), ('ev', ('connok', c)), ('rp', 'opensent' + tag, 4),
+                ('ev', ('data', c, op)), ('rp', 'openconfirm' + tag, 5), ('ev', ('data', c, m['keepalive']))]
+    first = [('rp', 'idle', 1), ('ev', ('boot',))] + attempt(0)
+    plain = [s for s in first if s[0] == 'ev']
+    return {
+        'first': (first, True),
+        # the session is lost and comes up again on a second connection
+        'after_loss': (plain + [('ev', ('lost', 0)), ('rp', 'idle_after_loss', 1), ('ev', ('fire', 'TIdleHold'))]
+                       + attempt(1, '2'), True),
+        # operator stops and starts the session
+        'restart': (plain + [('ev', ('stop',)), ('rp', 'idle_stopped', 1), ('ev', ('start',))] + attempt(1, '2'), True),
+        # the first attempt fails, the second one succeeds
+        'retry': ([('ev', ('boot',)), ('ev', ('connfail', 0)), ('rp', 'idle_connect_failed', 1),
+                   ('ev', ('fire', 'TIdleHold'))] + attempt(1, '2'), True),
+        # a peer that announces multiprotocol + route refresh only (no 4-octet-AS capability)
+        'peer_without_as4': ([('rp', 'idle', 1), ('ev', ('boot',))] + attempt(0, '', open2), False),
+    }
+
+
+def read_points(script):
+    return [s[1] for s in session_scripts()[script][0] if s[0] == 'rp']
+
+
+def read_requests(established):
+    """(method, url, json body or None, with credentials?): requests that must not change anything.
+    Every GET of the API that is not an action (manual-start/-stop are), HEAD, a request without
+    credentials; outside Established the POSTs guarded by makesure_peer_establish (refused there); in
+    Established the posts the views refuse or answer without sending (json_to_bin, rib look-ups)."""
+    p = '/v1/peer/%s' % PEER
+    upd = {'attr': {'1': 0, '2': [], '3': '10.0.0.1', '16': ['route-origin:100:1', 'route-target:70000:1']},
+           'nlri': ['10.0.0.0/8']}
+    bad = {'attr': {'1': 0, '2': [], '3': '10.0.0.1', '16': ['no-such-community:1']}, 'nlri': ['10.0.0.0/8']}
+    rq = [('GET', '/v1/', None, True), ('GET', p + '/state', None, True), ('GET', p + '/statistic', None, True),
+          ('GET', p + '/version/send', None, True), ('GET', p + '/version/received', None, True),
+          ('GET', p + '/version/other', None, True), ('HEAD', p + '/state', None, True),
+          ('GET', p + '/state', None, False), ('POST', p + '/json_to_bin', upd, False),
+          ('POST', p + '/json_to_bin', upd, True), ('POST', p + '/json_to_bin', bad, True),
+          ('POST', p + '/json_to_bin', {'unrelated': 1}, True),
+          ('POST', p + '/adj-rib-in', {'data': ['10.0.0.0/8']}, True),
+          ('POST', p + '/adj-rib-out', {'data': ['10.0.0.0/8']}, True),
+          ('POST', p + '/send/update', bad, True), ('POST', p + '/send/update', {'unrelated': 1}, True)]
+    if not established:
+        rq += [('POST', p + '/send/update', upd, True), ('POST', p + '/send/route-refresh', {'afi': 1, 'safi': 1}, True),
+               ('POST', p + '/send/bin_update', {'binary_data': 'ff' * 16 + '001304'}, True)]
+    return rq
+
+
+def diff_paths(a, b, path=''):
+    """where two snapshots differ (short text)"""
+    if type(a) is not type(b):
+        return ['%s: %r -> %r' % (path, a, b)]
+    if isinstance(a, dict):
+        out = []
+        for k in sorted(set(a) | set(b), key=repr):
+            if k not in a or k not in b:
+                out.append('%s[%r]: %r -> %r' % (path, k, a.get(k, '<absent>'), b.get(k, '<absent>')))
+            elif a[k] != b[k]:
+                out += diff_paths(a[k], b[k], '%s[%r]' % (path, k))
+        return out
+    if isinstance(a, (list, tuple)) and len(a) == len(b):
+        out = []
+        for i, (x, y) in enumerate(zip(a, b)):
+            if x != y:
+                out += diff_paths(x, y, '%s[%d]' % (path, i))
+        return out
+    return [] if a == b else ['%s: %r -> %r' % (path, a, b)]
+
+
+STATE_FIELDS = ['fsm state', 'hold_time', 'keep_alive_time', 'connect_retry_counter', 'allow_automatic_start',
+                'tracked connection', 'timers', 'connections', 'established connection', 'peering status', 'clock',
+                'local capabilities', 'remote capabilities']
+
+
 class Rest(object):
-    def __init__(self, remote_caps='as4'):
-        import explore
-        self.drv = session.Driver()
-        msgs = dict(explore.messages())
-        for e in [('boot',), ('connok', 0), ('data', 0, msgs['open_ok']), ('data', 0, msgs['keepalive'])]:
-            self.drv.apply(e)
-        from yabgp.common import constants as C
-        assert self.drv.peering.fsm.state == C.ST_ESTABLISHED, 'peering did not reach Established'
+    def __init__(self, remote_caps='real', script='first', reads=()):
+        self.script, self.reads = script, tuple(reads)
         self.client = flask_app.test_client()
+        self.drv = session.Driver()
         cred = '%s:%s' % (CONF.rest.username, CONF.rest.password)
         self.hdr = {'Authorization': 'Basic ' + base64.b64encode(cred.encode()).decode(),
                     'Content-Type': 'application/json'}
-        self.set_caps(remote_caps)
         self.captured = None
-        rest = self
+        self.effects = []        # requests that changed something they must not change
+        self.sequence = []       # what was done, for the violation report
+        self.reads_done = 0
+        self.single_cache = {}
+        self._spy()
+        steps, self.peer_as4 = session_scripts()[script]
+        for st in steps:
+            if st[0] == 'ev':
+                r = self.drv.apply(st[1])
+                assert r[0], ('session script step not enabled', script, st[1][:2])
+                self.sequence.append('%s%s' % (st[1][0], '' if len(st[1]) < 2 else
+                                               ' ' + ' '.join(self.ev_text(x) for x in st[1][1:])))
+            else:
+                assert self.drv.peering.fsm.state == st[2], (script, st, self.drv.peering.fsm.state)
+                if st[1] in self.reads:
+                    self.do_reads(st[1])
+        from yabgp.common import constants as C
+        assert self.drv.exc == 0, 'exception in the session layer while the session was driven'
+        assert self.drv.peering.fsm.state == C.ST_ESTABLISHED, 'peering did not reach Established'
+        # the capabilities the REAL session recorded from the peer's OPEN; [set_caps] pins others for the
+        # capability variants of the correspondence run only
+        self.real_caps = copy.deepcopy(CONF.bgp.running_config['capability']['remote'])
+        self.caps = 'real'
+        if remote_caps != 'real':
+            self.set_caps(remote_caps)
+
+    @staticmethod
+    def ev_text(x):
+        if isinstance(x, (bytes, bytearray)):
+            return {1: 'OPEN', 2: 'UPDATE', 3: 'NOTIFICATION', 4: 'KEEPALIVE'}.get(x[18] if len(x) > 18 else 0, x.hex())
+        return str(x)
+
+    def _spy(self):
         if not hasattr(api_utils, '_verif_orig_c2b'):
             api_utils._verif_orig_c2b = api_utils.construct_update_to_bin
+        if not hasattr(api_utils, '_verif_orig_su'):
+            api_utils._verif_orig_su = api_utils.send_update
 
         def spy(peer_ip, attr, nlri, withdraw):
-            Rest.current.captured = dict(attr)
+            Rest.current.captured = copy.deepcopy(dict(attr))
             return api_utils._verif_orig_c2b(peer_ip, attr, nlri, withdraw)
+
+        def spy_su(peer_ip, attr, nlri, withdraw):
+            Rest.current.captured = copy.deepcopy(dict(attr))
+            return api_utils._verif_orig_su(peer_ip, attr, nlri, withdraw)
         api_utils.construct_update_to_bin = spy
-        Rest.current = rest
+        api_utils.send_update = spy_su
+        Rest.current = self
 
     def set_caps(self, which):
         """remote capability dictionary as get_peer_conf_and_state reports it"""
         rc = CONF.bgp.running_config['capability']
-        if which == 'as4':
+        if which == 'real':
+            rc['remote'] = copy.deepcopy(self.real_caps)
+        elif which == 'as4':
             rc['remote'] = {'afi_safi': [(1, 1)], 'route_refresh': True, 'four_bytes_as': True}
         elif which == 'as2':
             rc['remote'] = {'afi_safi': [(1, 1)], 'route_refresh': True, 'four_bytes_as': False}
@@ -250,17 +391,79 @@ class Rest(object):
             rc['remote'] = {}
         self.caps = which
 
+    def caps_coq(self):
+        """the model's view of the remote capability dictionary the views consult right now"""
+        d = CONF.bgp.running_config['capability']['remote']
+        if not d:
+            return 'CapEmpty'
+        if 'four_bytes_as' not in d:
+            return 'CapNoKey'
+        return '(CapFba %s)' % ('true' if d['four_bytes_as'] else 'false')
+
+    # -- the no-effect oracle ------------------------------------------------------------------
+    def snapshot(self, full=True):
+        """(configuration the REST layer shares with the session layer, abstract session state, length of
+        the transport/handler log)"""
+        session.Driver.current = self.drv
+        rc = CONF.bgp.running_config
+        conf = copy.deepcopy({k: v for k, v in rc.items() if k != 'factory'})
+        conf['factory is the peering'] = rc.get('factory') is self.drv.peering
+        if not full:
+            return (conf,)
+        return (conf, self.drv.state(), len(self.drv.sim.log))
+
+    def describe_change(self, a, b):
+        out = diff_paths(a[0], b[0], 'CONF.bgp.running_config')
+        if len(a) > 1:
+            for i, (x, y) in enumerate(zip(a[1], b[1])):
+                if x != y:
+                    out.append('session %s: %r -> %r' % (STATE_FIELDS[i], x, y))
+            if a[2] != b[2]:
+                out.append('transport/handler events: %r' % ([it[:2] for it in self.drv.sim.log[a[2]:b[2]]],))
+        return '; '.join(out)[:600]
+
+    def request(self, method, url, body=None, auth=True, must_not_change=True, full=True):
+        """one REST request under the no-effect oracle.  returns the response"""
+        Rest.current = self
+        before = self.snapshot(full)
+        hdr = dict(self.hdr)
+        if not auth:
+            del hdr['Authorization']
+        kw = {'data': json.dumps(body)} if body is not None else {}
+        r = self.client.open(url, method=method, headers=hdr, **kw)
+        if must_not_change:
+            after = self.snapshot(full)
+            if after != before:
+                self.effects.append({
+                    'request': [method, url, body, 'with credentials' if auth else 'no credentials'],
+                    'fsm': FSM_NAME.get(self.drv.peering.fsm.state), 'http': r.status_code,
+                    'after': list(self.sequence), 'changed': self.describe_change(before, after)})
+        return r
+
+    def do_reads(self, point):
+        est = self.drv.peering.fsm.state == 6
+        for method, url, body, auth in read_requests(est):
+            self.request(method, url, body, auth)
+            self.reads_done += 1
+        self.sequence.append('REST reads in %s (%s)' % (FSM_NAME.get(self.drv.peering.fsm.state), point))
+
     def post(self, attr, view='json_to_bin'):
-        """returns (http status, json or None, attr dictionary the view handed to the encoder or None)"""
+        """returns (http status, json or None, attr dictionary the view handed to the encoder or None).
+        json_to_bin sends nothing: the whole state must stay as it is; send/update must not touch the
+        configuration (what it writes is C16's subject)"""
         Rest.current = self
         self.captured = None
         body = {'attr': dict({'1': 0, '2': [], '3': '10.0.0.1'}, **attr), 'nlri': ['10.0.0.0/8']}
         n0 = len(self.drv.sim.log)
-        r = self.client.post('/v1/peer/%s/%s' % (PEER, 'json_to_bin' if view == 'json_to_bin' else 'send/update'),
-                             data=json.dumps(body), headers=self.hdr)
+        r = self.request('POST', '/v1/peer/%s/%s' % (PEER, 'json_to_bin' if view == 'json_to_bin' else 'send/update'),
+                         body, True, True, full=(view == 'json_to_bin'))
         js = r.get_json(silent=True) if r.status_code == 200 else None
         self.written = [it[2] for it in self.drv.sim.log[n0:] if it[0] == 'write']
+        self.last = (r.status_code, js, [w.hex() for w in self.written])
         return r.status_code, js, self.captured
+
+    def session_input(self):
+        return {'script': self.script, 'reads_in': list(self.reads), 'sequence': list(self.sequence)}
 
 
 def attrs_of_update(msg):
@@ -296,44 +499,83 @@ def parse_real(fam, octets):
     return {'ec': ExtCommunity, 'com': Community, 'large': LargeCommunity}[fam].parse(octets)
 
 
-def check_one(rest, fam, octets, view='json_to_bin'):
-    """the property on the implementation.  returns None or (stage, detail)"""
-    ty, flag = ATTR[fam]
-    try:
-        text = parse_real(fam, octets)
-    except BaseException as e:
-        return ('decode-raises', type(e).__name__)
-    if not (isinstance(text, list) and text and all(isinstance(t, str) for t in text)):
-        return ('decode-not-text', repr(text)[:80])
-    st, js, cap = rest.post({str(ty): text}, view)
+def single_items(rest, text, view):
+    """what the view's recombination makes of ONE posted text (cached), or None"""
+    key = (view, text, rest.caps)
+    if key not in rest.single_cache:
+        st, js, cap = rest.post({'16': [text]}, view)
+        rest.single_cache[key] = None if cap is None else cap.get(16)
+    return rest.single_cache[key]
+
+
+def check_attrs(rest, attrs, view='json_to_bin', elementwise=True):
+    """the property on the implementation for ONE request that carries the attributes {family: RFC octets}.
+    returns None or (stage, detail)"""
+    texts = {}
+    for fam in sorted(attrs):
+        try:
+            text = parse_real(fam, attrs[fam])
+        except BaseException as e:
+            return ('decode-raises', type(e).__name__)
+        if not (isinstance(text, list) and text and all(isinstance(t, str) for t in text)):
+            return ('decode-not-text', repr(text)[:80])
+        texts[fam] = text
+    shown = texts[list(texts)[0]] if len(texts) == 1 else texts
+    neff = len(rest.effects)
+    st, js, cap = rest.post({str(ATTR[fam][0]): t for fam, t in texts.items()}, view)
     if view == 'json_to_bin':
         if st != 200:
-            return ('rest-refused', 'http %d text=%r' % (st, text))
+            return ('rest-refused', 'http %d text=%r' % (st, shown))
         if not isinstance(js, dict) or 'bin' not in js:
-            return ('rest-refused', 'text=%r answer=%r' % (text, js))
+            return ('rest-refused', 'text=%r answer=%r' % (shown, js))
         msg = bytes.fromhex(js['bin'])
     else:
         if st != 200 or not isinstance(js, dict) or js.get('status') is not True or len(rest.written) != 1:
-            return ('rest-refused', 'http %d text=%r answer=%r' % (st, text, js))
+            return ('rest-refused', 'http %d text=%r answer=%r' % (st, shown, js))
         msg = rest.written[0]
     try:
         a = attrs_of_update(msg)
     except Exception:
         return ('bin-not-an-update', msg.hex())
-    if ty not in a:
-        return ('attribute-missing', msg.hex())
-    fl, val = a[ty]
-    if val != octets:
-        return ('octets-differ', 'text=%r produced=%s' % (text, val.hex()))
-    if fl != flag:
-        return ('flags-differ', '%02x' % fl)
-    try:
-        again = parse_real(fam, val)
-    except BaseException as e:
-        return ('redecode-raises', type(e).__name__)
-    if again != text:
-        return ('text-differs', '%r vs %r' % (text, again))
+    for fam in sorted(attrs):
+        ty, flag = ATTR[fam]
+        octets, text = attrs[fam], texts[fam]
+        if ty not in a:
+            return ('attribute-missing', msg.hex())
+        fl, val = a[ty]
+        if val != octets:
+            if len(octets) > 24:
+                w = len(octets) // len(text)
+                bad = [i for i in range(len(text)) if val[i * w:(i + 1) * w] != octets[i * w:(i + 1) * w]]
+                if bad and len(val) == len(octets):
+                    i = bad[0]
+                    return ('octets-differ', 'text=%r member %d (%r) of %d produced=%s expected=%s' % (
+                        shown, i, text[i], len(text), val[i * w:(i + 1) * w].hex(), octets[i * w:(i + 1) * w].hex()))
+            return ('octets-differ', 'text=%r produced=%s' % (shown, val.hex()))
+        if fl != flag:
+            return ('flags-differ', '%02x' % fl)
+        try:
+            again = parse_real(fam, val)
+        except BaseException as e:
+            return ('redecode-raises', type(e).__name__)
+        if again != text:
+            return ('text-differs', '%r vs %r' % (text, again))
+    # no state carried from one member of attr[16] to the next: the items made of the list are the items
+    # made of each member alone, in order
+    if elementwise and 'ec' in texts and len(texts['ec']) > 1 and cap is not None:
+        alone = [single_items(rest, t, view) for t in texts['ec']]
+        if any(x is None for x in alone) or cap.get(16) != [it for x in alone for it in x]:
+            return ('recombination-not-elementwise', 'text=%r list gives %r, members alone give %r'
+                    % (texts['ec'], cap.get(16), alone))
+    if len(rest.effects) > neff:
+        e = rest.effects[-1]
+        return ('request-changed-state', '%s %s answered %d changed: %s' % (e['request'][0], e['request'][1],
+                                                                             e['http'], e['changed']))
     return None
+
+
+def check_one(rest, fam, octets, view='json_to_bin'):
+    return check_attrs(rest, {fam: octets}, view)
 
 
 # known-finding classification: exactly this input class with exactly this behaviour
@@ -346,11 +588,257 @@ def classify(fam, kind, v, fail):
     return None
 
 
+# ------------------------------------------------------------------------------------------
+# lists with several members of the SAME kind and DIFFERENT values
+# ------------------------------------------------------------------------------------------
+def good_pools(values):
+    pools = {}
+    for k, v in values:
+        if k in ('rt_as4', 'ro_as4') and v[0] < 65536:      # known finding C17-as4-format-small-as
+            continue
+        pools.setdefault(k, []).append(v)
+    return pools
+
+
+def neighbours(kind, rng):
+    """three values of one kind that differ in ONE field only (a, a with the last field changed, a with the
+    first field changed)"""
+    fs = FIELDS[kind]
+    if kind == 'traffic_action':
+        return [(0, 1), (0, 0), (1, 1)]
+    if len(fs) == 1:
+        return [(x,) for x in rng.sample(fs[0], 3)]
+    a0, c0 = rng.sample(fs[0], 2)
+    a1, b1 = rng.sample(fs[1], 2)
+    return [(a0, a1), (a0, b1), (c0, a1)]
+
+
+def same_kind_shapes(a, b, c, x, y):
+    """a, b, c: members of the kind under test (pairwise different); x, y: members of other kinds"""
+    return [('pair', [a, b]), ('pair-reversed', [b, a]), ('triple', [a, b, c]), ('triple-reversed', [c, b, a]),
+            ('pair-other-between', [a, x, b]), ('pair-reversed-other-between', [b, x, a]),
+            ('triple-others-between', [a, x, b, y, c]), ('triple-reversed-others-between', [c, y, b, x, a])]
+
+
+def gen_same_kind_lists(ctx, values, comms, larges):
+    """[(family, kind under test, shape, members)]; members are (kind, value) for 'ec', values otherwise"""
+    rng = ctx.rng
+    pools = good_pools(values)
+    nrand = 10 if ctx.thorough else 1
+    out = []
+
+    def other(k):
+        ko = rng.choice([z for z in KIND_ORDER if z != k])
+        return (ko, rng.choice(pools[ko]))
+    for k in KIND_ORDER:
+        pool = pools[k]
+        assert len(set(pool)) >= 3, k
+        triples = [(pool[0], pool[len(pool) // 2], pool[-1]), tuple(neighbours(k, rng))]
+        triples += [tuple(rng.sample(pool, 3)) for _ in range(nrand)]
+        if k == 'traffic_action':
+            # the whole space: every ordered pair and every ordered triple of different flag combinations
+            vs = sorted(set(pool))
+            for p in itertools.permutations(vs, 2):
+                out.append(('ec', k, 'pair', [(k, v) for v in p]))
+                out.append(('ec', k, 'pair-other-between', [(k, p[0]), other(k), (k, p[1])]))
+            for p in itertools.permutations(vs, 3):
+                out.append(('ec', k, 'triple', [(k, v) for v in p]))
+            triples = triples[:2]
+        for t in triples:
+            assert len(set(t)) == 3, (k, t)
+            for shape, l in same_kind_shapes((k, t[0]), (k, t[1]), (k, t[2]), other(k), other(k)):
+                out.append(('ec', k, shape, l))
+    # the same text key, different wire formats and values, interleaved (route-target / route-origin)
+    for key, ks in (('route-target', ['rt_as2', 'rt_ip4', 'rt_as4']), ('route-origin', ['ro_as2', 'ro_ip4', 'ro_as4'])):
+        for _ in range(4 if ctx.thorough else 2):
+            l = [(k, v) for k in ks for v in rng.sample(pools[k], 2)]
+            rng.shuffle(l)
+            out.append(('ec', key, 'mixed-formats', l))
+            out.append(('ec', key, 'mixed-formats-reversed', l[::-1]))
+    for _ in range(4 if ctx.thorough else 2):
+        l = [(k, rng.choice(pools[k])) for k in ('rt_as2', 'ro_as2', 'rt_as4', 'ro_as4', 'rt_ip4', 'ro_ip4') * 2]
+        out.append(('ec', 'route-target+route-origin', 'alternating', l))
+    # every kind twice with different values in one attribute (at most 31 communities fit one length octet)
+    for ks in (KIND_ORDER[:15], KIND_ORDER[3:]):
+        l = []
+        for k in ks:
+            a, b = rng.sample(pools[k], 2)
+            l += [(k, a), (k, b)]
+        out.append(('ec', 'all', 'every-kind-twice-adjacent', l))
+        l2 = l[0::2] + l[1::2]
+        out.append(('ec', 'all', 'every-kind-twice-apart', l2))
+    # communities: numeric and well-known values; large communities
+    names = sorted(WELL_KNOWN_RFC & set(comms))
+    nums = [c for c in comms if c not in names and c < 0xFFFF0000]
+    for i in range(4 + nrand * 2):
+        a, b, c = (names[:3] if i == 0 else nums[:3] if i == 1 else nums[-3:] if i == 2 else
+                   rng.sample(names, 3) if i == 3 else rng.sample(comms, 3))
+        x, y = (rng.sample(nums, 2) if i in (0, 3) else rng.sample(names, 2))
+        for shape, l in same_kind_shapes(a, b, c, x, y):
+            out.append(('com', 'community', shape, l))
+    lb = [(1, 2, 3), (1, 2, 4), (2, 2, 3)]
+    for i in range(3 + nrand * 2):
+        a, b, c = (lb if i == 0 else [larges[0], larges[len(larges) // 2], larges[-1]] if i == 1
+                   else rng.sample(larges, 3))
+        x, y = rng.sample(larges, 2)
+        if len({a, b, c, x, y}) < 5:
+            continue
+        for shape, l in same_kind_shapes(a, b, c, x, y):
+            out.append(('large', 'large', shape, l))
+    return out
+
+
+def list_octets(fam, members):
+    if fam == 'ec':
+        return b''.join(ref_ec(k, v) for k, v in members)
+    return b''.join((ref_community if fam == 'com' else ref_large)(v) for v in members)
+
+
+def list_value(fam, members):
+    return [[k, list(v)] for k, v in members] if fam == 'ec' else [list(v) if isinstance(v, tuple) else v
+                                                                      for v in members]
+
+
+def oracle_lists(ctx, rest, lists):
+    """every same-kind list through BOTH views; the three attributes together in one request"""
+    viol, n, shapes = [], 0, {}
+    for fam, kind, shape, members in lists:
+        octets = list_octets(fam, members)
+        shapes[shape] = shapes.get(shape, 0) + 1
+        for view in ('json_to_bin', 'send/update'):
+            n += 1
+            f = check_attrs(rest, {fam: octets}, view)
+            if f:
+                viol.append({'what': 'C17 list (%s, %s) of %d %s via %s: %s: %s'
+                                     % (kind, shape, len(members), fam, view, f[0], f[1]),
+                             'input': {'family': fam, 'kind': 'list', 'of': kind, 'shape': shape,
+                                       'value': list_value(fam, members), 'octets': octets.hex(), 'view': view},
+                             'stage': f[0], 'known': None})
+    by = {}
+    for fam, kind, shape, members in lists:
+        by.setdefault(fam, []).append(list_octets(fam, members))
+    rng = ctx.rng
+    for i in range(60 if ctx.thorough else 12):
+        attrs = {fam: rng.choice(by[fam]) for fam in ('ec', 'com', 'large')}
+        if i % 4 == 3:
+            del attrs[rng.choice(sorted(attrs))]
+        view = ('json_to_bin', 'send/update')[i % 2]
+        n += 1
+        f = check_attrs(rest, attrs, view)
+        if f:
+            viol.append({'what': 'C17 attributes %s in one request via %s: %s: %s' % (sorted(attrs), view, f[0], f[1]),
+                         'input': {'family': 'multi', 'attrs': {k: v.hex() for k, v in attrs.items()}, 'view': view},
+                         'stage': f[0], 'known': None})
+    return n, viol, shapes
+
+
+def effect_violations(rest, limit=6):
+    out = []
+    for e in rest.effects[:limit]:
+        out.append({'what': 'C17 REST request that must not change anything did: %s %s (%s, answered %d) with the '
+                            'session in %s after [%s] changed %s'
+                            % (e['request'][0], e['request'][1], e['request'][3], e['http'], e['fsm'],
+                               '; '.join(e['after']), e['changed']),
+                    'input': {'family': 'session', 'session': rest.session_input(), 'request': e['request'],
+                              'fsm': e['fsm']},
+                    'stage': 'request-changed-state', 'known': None})
+    return out
+
+
+# ------------------------------------------------------------------------------------------
+# REST reads interleaved with the progress of a real session
+# ------------------------------------------------------------------------------------------
+def interleave_cases(ctx, values, comms, larges, lists):
+    """the round-trip posts made after the session came up: [(family, octets, view, (kind, value) or None)]"""
+    rng = ctx.rng
+    pools = good_pools(values)
+    per = 6 if ctx.thorough else 2
+    cases = []
+    for k in KIND_ORDER:
+        pool = pools[k]
+        vs = [pool[0], pool[-1]] + rng.sample(pool, min(len(pool), per))
+        if k in ('ro_as2', 'ro_as4', 'rt_as4'):     # the values the views consult the peer's capabilities for
+            vs += rng.sample(pool, min(len(pool), per + 2))
+        for i, v in enumerate(dict.fromkeys(vs)):
+            cases.append(('ec', ref_ec(k, v), ('json_to_bin', 'send/update')[i % 2], (k, v)))
+            if i < 2:
+                cases.append(('ec', ref_ec(k, v), ('send/update', 'json_to_bin')[i % 2], (k, v)))
+    for i, c in enumerate(rng.sample(comms, 6) + sorted(WELL_KNOWN_RFC & set(comms))[:2]):
+        cases.append(('com', ref_community(c), ('json_to_bin', 'send/update')[i % 2], None))
+    for i, l in enumerate(rng.sample(larges, 6)):
+        cases.append(('large', ref_large(l), ('json_to_bin', 'send/update')[i % 2], None))
+    pick = [x for x in lists if x[1] in ('route-target', 'route-origin', 'route-target+route-origin', 'all')]
+    pick += rng.sample(lists, min(len(lists), 40 if ctx.thorough else 10))
+    for i, (fam, kind, shape, members) in enumerate(pick):
+        cases.append((fam, list_octets(fam, members), ('json_to_bin', 'send/update')[i % 2], None))
+    return cases
+
+
+def session_dimension(ctx, values, comms, larges, lists):
+    """for every session script: the same posts after the session WITHOUT reads, with reads in exactly one
+    pre-Established state, and with reads in all of them.  Oracles: the property itself on every post (when
+    the peer announced the 4-octet-AS capability); equal results with and without reads; no effect of a read."""
+    cases = interleave_cases(ctx, values, comms, larges, lists)
+    viol, n, stats = [], 0, {'sessions': 0, 'reads': 0, 'posts': 0, 'read_points': {}, 'scripts': []}
+    for script in sorted(session_scripts(), key=lambda x: (x != 'first', x)):
+        points = read_points(script)
+        stats['scripts'].append(script)
+        # quick tier: reads in exactly one state for the first session only; elsewhere in none / in all states
+        single = [(p,) for p in points] if (ctx.thorough or script == 'first') else [(p,) for p in points[-1:]]
+        plans = [()] + single + [tuple(points)]
+        base = None
+        for plan in plans:
+            rest = Rest(script=script, reads=plan)
+            if plan:
+                rest.do_reads('established')
+            stats['sessions'] += 1
+            stats['reads'] += rest.reads_done
+            for p in plan:
+                stats['read_points'][p] = stats['read_points'].get(p, 0) + 1
+            res, reported = [], 0
+            for fam, octets, view, kv in cases:
+                n += 1
+                f = check_attrs(rest, {fam: octets}, view, elementwise=False)
+                res.append((f, rest.last))
+                if f and rest.peer_as4 and reported < 4:
+                    reported += 1
+                    hint = ''
+                    if rest.effects:
+                        e = rest.effects[0]
+                        hint = '  [before that, %s %s served in %s changed %s]' % (e['request'][0], e['request'][1],
+                                                                                  e['fsm'], e['changed'])
+                    viol.append({'what': 'C17 %s %s via %s after the session [%s]: %s: %s%s'
+                                         % (fam, octets.hex() if len(octets) <= 24 else 'list ' + octets.hex(), view,
+                                            '; '.join(rest.sequence), f[0], f[1], hint),
+                                 'input': {'family': fam, 'octets': octets.hex(), 'view': view,
+                                           'session': rest.session_input()},
+                                 'stage': f[0], 'known': classify(fam, kv[0], kv[1], f) if kv else None})
+            stats['posts'] += len(cases)
+            if base is None:
+                base = res
+            else:
+                differs = [i for i in range(len(cases)) if res[i] != base[i]]
+                for i in differs[:(0 if reported else 3)]:
+                    fam, octets, view, kv = cases[i]
+                    viol.append({'what': 'C17 REST reads while the session came up change a later answer: %s %s via %s '
+                                         'after [%s] -> %r; same session without the reads -> %r'
+                                         % (fam, octets.hex(), view, '; '.join(rest.sequence), res[i], base[i]),
+                                 'input': {'family': fam, 'octets': octets.hex(), 'view': view,
+                                           'session': rest.session_input(), 'expect_equal_to_session_without_reads': True},
+                                 'stage': 'reads-change-result', 'known': None})
+            viol += effect_violations(rest, 3)
+    stats['cases_per_session'] = len(cases)
+    return n, viol, stats
+
+
 def oracle(ctx, rest, values, comms, larges):
     viol, n, per_kind = [], 0, {}
+    rest.do_reads('established')
     for kind, v in values:
         octets = ref_ec(kind, v)
         n += 1
+        if n % 250 == 0:
+            rest.do_reads('established')
         per_kind[kind] = per_kind.get(kind, 0) + 1
         f = check_one(rest, 'ec', octets)
         if f:
@@ -405,26 +893,44 @@ def oracle(ctx, rest, values, comms, larges):
                 viol.append({'what': 'C17 %s value %r via send/update: %s: %s' % (k, v, f[0], f[1]),
                              'input': {'family': 'ec', 'kind': k, 'value': list(v), 'octets': ref_ec(k, v).hex(),
                                        'view': 'send/update'}, 'stage': f[0], 'known': classify('ec', k, v, f)})
+    rest.do_reads('established')
     return n, viol, per_kind
 
 
 def run(ctx):
-    rest = Rest()
     values = gen_values(ctx)
     comms = gen_communities(ctx)
     larges = gen_large(ctx)
+    lists = gen_same_kind_lists(ctx, values, comms, larges)
+    # sessions with interleaved reads first: each of them replaces the world (reactor, CONF.bgp.running_config)
+    n_se, viol_se, sess = session_dimension(ctx, values, comms, larges, lists)
+    rest = Rest()
     n_or, viol, per_kind = oracle(ctx, rest, values, comms, larges)
-    mism, ncorr, extra2 = [], 0, {}
-    mism, ncorr, extra2 = correspondence(ctx, rest, values, comms, larges)
+    n_li, viol_li, shapes = oracle_lists(ctx, rest, lists)
+    mism, ncorr, extra2 = correspondence(ctx, rest, values, comms, larges, lists)
+    # property failures with their concrete input first, then the requests that had an effect
+    viol = viol + viol_li + viol_se + effect_violations(rest)
+    sess['reads_in_established_during_the_sweep'] = rest.reads_done
+    by_kind = {}
+    for fam, kind, shape, members in lists:
+        by_kind[kind] = by_kind.get(kind, 0) + 1
     extra = {'oracle_cases': n_or, 'correspondence_cases': ncorr, 'per_kind': per_kind,
-             'communities': len(comms), 'large_communities': len(larges)}
+             'communities': len(comms), 'large_communities': len(larges),
+             'same_kind_lists': {'lists': len(lists), 'posts': n_li, 'by_shape': shapes, 'by_kind': by_kind,
+                                 'views': ['json_to_bin', 'send/update']},
+             'session_interleaving': sess,
+             'remote_capabilities_recorded_by_the_session': repr(rest.real_caps)}
     extra.update(extra2)
-    return {'evaluations': n_or + ncorr, 'distinct': n_or,
+    return {'evaluations': n_or + n_li + n_se + ncorr, 'distinct': n_or + n_li,
             'rule': 'boundary products + seeded random field values for each of the 18 wire formats of the 14 '
                     'kinds, all well-known communities and their neighbours, random communities, large '
-                    'communities with boundary/random 32-bit fields; lists of several values; non-trivial = the '
-                    'RFC octets decode to text (distinct by octets)',
-            'samples': [[k, list(v), ref_ec(k, v).hex()] for k, v in values[:3]] + [['community', comms[0]]],
+                    'communities with boundary/random 32-bit fields; random mixed lists; for every kind lists of 2 '
+                    'and 3 different values of that kind (both orders, other kinds in between, values differing in '
+                    'one field, all ordered pairs/triples of traffic-action flags) through both views; the three '
+                    'attributes in one request; the same posts after real sessions with REST reads interleaved in '
+                    'every pre-Established state; non-trivial = the RFC octets decode to text (distinct by octets)',
+            'samples': [[k, list(v), ref_ec(k, v).hex()] for k, v in values[:3]] + [['community', comms[0]]] +
+                       [[fam, kind, shape, list_octets(fam, members).hex()] for fam, kind, shape, members in lists[:2]],
             'mismatches': mism, 'violations': viol, 'extra': extra}
 
 
@@ -480,14 +986,13 @@ def coq_item(it):
 
 
 REFUSALS = {'please check peer state': 1, 'peer not support as num of greater than 65535': 2}
-CAPS_COQ = {'as4': '(CapFba true)', 'as2': '(CapFba false)', 'nokey': 'CapNoKey', 'empty': 'CapEmpty'}
 
 
-def impl_rest(rest, caps, texts):
+def impl_rest(rest, caps, texts, view='json_to_bin'):
     """what the view's recombination produced: [0, items] | [1, refusal] | [2] (exception)"""
     if rest.caps != caps:
         rest.set_caps(caps)
-    st, js, cap = rest.post({'16': texts})
+    st, js, cap = rest.post({'16': texts}, view)
     if cap is not None:
         return [0, [canon_item(i) for i in cap[16]]], cap[16]
     if st == 200 and isinstance(js, dict) and js.get('status') is False:
@@ -607,7 +1112,7 @@ def gen_malformed(ctx, good_texts):
     return res
 
 
-def correspondence(ctx, rest, values, comms, larges):
+def correspondence(ctx, rest, values, comms, larges, lists=()):
     from yabgp.message.attribute.extcommunity import ExtCommunity
     from yabgp.message.attribute.community import Community
     from yabgp.message.attribute.largecommunity import LargeCommunity
@@ -648,6 +1153,8 @@ def correspondence(ctx, rest, values, comms, larges):
         octs.append(b''.join(rng.choice(octs[:len(values)]) for _ in range(rng.randrange(0, 6))))
     for ln in (1, 7, 9, 12, 15):
         octs.append(bytes(rng.randrange(256) for _ in range(ln)))
+    ec_lists = [list_octets(fam, members) for fam, kind, shape, members in lists if fam == 'ec']
+    octs += ec_lists                                    # same-kind lists: the decoder side
     good_texts = []
     for o in octs:
         r = canon_call(lambda o=o: ExtCommunity.parse(o), render_texts)
@@ -657,27 +1164,40 @@ def correspondence(ctx, rest, values, comms, larges):
     good_texts = sorted(set(good_texts))
 
     # (B) the view's recombination; (C) ExtCommunity.construct on every item list it produced
-    posts = [('as4', [t]) for t in good_texts]
+    # 'real' = the remote capabilities the session recorded from the peer's OPEN (4-octet AS announced)
+    posts = [('real', [t], 'json_to_bin') for t in good_texts]
     mal = gen_malformed(ctx, good_texts)
     for t in mal:
-        posts.append(('as4', [t]))
+        posts.append(('real', [t], 'json_to_bin'))
+    # same-kind lists through both views: [rest_ec] maps over the members and carries nothing along
+    for i, o in enumerate(ec_lists):
+        texts = canon_call(lambda o=o: ExtCommunity.parse(o), lambda v: v)
+        if texts[0] == 0 and all(isinstance(t, str) for t in texts[1]):
+            posts.append(('real', list(texts[1]), 'json_to_bin'))
+            if ctx.thorough or i % 3 == 0 or 'traffic-action' in ' '.join(texts[1]):
+                posts.append(('real', list(texts[1]), 'send/update'))
+    for t in rng.sample(good_texts, 150 if ctx.thorough else 30) + rng.sample(mal, 60 if ctx.thorough else 20):
+        posts.append(('real', [t], 'send/update'))
     for capname in ('as2', 'nokey', 'empty'):
         pool = [t for t in good_texts + mal if t.lower().lstrip().startswith(('route-target', 'route-origin'))]
         for t in rng.sample(pool, min(len(pool), 400 if ctx.thorough else 70)):
-            posts.append((capname, [t]))
+            posts.append((capname, [t], 'json_to_bin'))
         for t in rng.sample(good_texts, 10):
-            posts.append((capname, [t]))
+            posts.append((capname, [t], 'json_to_bin'))
     for _ in range(60 if ctx.thorough else 12):
-        posts.append((rng.choice(['as4', 'as4', 'as2', 'empty']),
-                      [rng.choice(good_texts if rng.random() < 0.8 else mal) for _ in range(rng.randrange(0, 6))]))
+        posts.append((rng.choice(['real', 'as4', 'as2', 'empty']),
+                      [rng.choice(good_texts if rng.random() < 0.8 else mal) for _ in range(rng.randrange(0, 6))],
+                      rng.choice(['json_to_bin', 'send/update'])))
     item_lists = []
-    for capname, texts in posts:
-        r, items = impl_rest(rest, capname, texts)
-        cases.append(('sx_rres sx_items (rest_ec %s [%s])' % (CAPS_COQ[capname], '; '.join(coq_str(t) for t in texts)),
-                      r, ('rest recombination', capname, texts)))
+    nviews = {}
+    for capname, texts, view in posts:
+        r, items = impl_rest(rest, capname, texts, view)
+        nviews[view] = nviews.get(view, 0) + 1
+        cases.append(('sx_rres sx_items (rest_ec %s [%s])' % (rest.caps_coq(), '; '.join(coq_str(t) for t in texts)),
+                      r, ('rest recombination', capname, texts, view)))
         if items:
             item_lists.append(items)
-    rest.set_caps('as4')
+    rest.set_caps('real')
     seen = set()
     for items in item_lists:
         key = repr(items)
@@ -703,6 +1223,7 @@ def correspondence(ctx, rest, values, comms, larges):
     coct = [ref_community(c) for c in comms]
     coct += [b''.join(ref_community(rng.choice(comms)) for _ in range(rng.randrange(0, 5))) for _ in range(20)]
     coct += [bytes(rng.randrange(256) for _ in range(ln)) for ln in (1, 2, 3, 5, 6, 7, 9, 10)]
+    coct += [list_octets(fam, members) for fam, kind, shape, members in lists if fam == 'com']
     ctexts = []
     for o in coct:
         r = canon_call(lambda o=o: Community.parse(o), lambda v: [T(t) for t in v])
@@ -717,6 +1238,7 @@ def correspondence(ctx, rest, values, comms, larges):
     clists = [[t] for t in ctexts + cmal]
     clists += [[rng.choice(ctexts + cmal) for _ in range(rng.randrange(0, 6))] for _ in range(40)]
     clists += [['1:%d' % i for i in range(n)] for n in (63, 64)]
+    clists += [Community.parse(list_octets(fam, members)) for fam, kind, shape, members in lists if fam == 'com']
     for l in clists:
         r = canon_call(lambda l=l: Community.construct(l), Bytes)
         cases.append(('sx_pres SB (com_construct [%s])' % '; '.join(coq_str(t) for t in l), r,
@@ -724,6 +1246,7 @@ def correspondence(ctx, rest, values, comms, larges):
     loct = [ref_large(l) for l in larges]
     loct += [b''.join(ref_large(rng.choice(larges)) for _ in range(rng.randrange(0, 4))) for _ in range(20)]
     loct += [bytes(rng.randrange(256) for _ in range(ln)) for ln in (1, 4, 8, 11, 13, 16, 20, 23)]
+    loct += [list_octets(fam, members) for fam, kind, shape, members in lists if fam == 'large']
     ltexts = []
     for o in loct:
         r = canon_call(lambda o=o: LargeCommunity.parse(o), lambda v: [T(t) for t in v])
@@ -736,6 +1259,7 @@ def correspondence(ctx, rest, values, comms, larges):
     llists = [[t] for t in ltexts + lmal]
     llists += [[rng.choice(ltexts + lmal) for _ in range(rng.randrange(0, 5))] for _ in range(30)]
     llists += [['1:2:%d' % i for i in range(n)] for n in (21, 22)]
+    llists += [LargeCommunity.parse(list_octets(fam, members)) for fam, kind, shape, members in lists if fam == 'large']
     for l in llists:
         r = canon_call(lambda l=l: LargeCommunity.construct(l), Bytes)
         cases.append(('sx_pres SB (large_construct [%s])' % '; '.join(coq_str(t) for t in l), r,
@@ -745,7 +1269,8 @@ def correspondence(ctx, rest, values, comms, larges):
     for c in cases:
         kinds[c[2][0]] = kinds.get(c[2][0], 0) + 1
     extra = {'correspondence_by_function': kinds, 'table_entries_compared': ntab,
-             'malformed_texts': len(mal), 'decoded_texts': len(good_texts)}
+             'malformed_texts': len(mal), 'decoded_texts': len(good_texts), 'recombination_posts_by_view': nviews,
+             'same_kind_lists_in_correspondence': len(ec_lists)}
     if not ctx.coq_ok:
         return [], len(cases), extra
     per = 200
@@ -769,9 +1294,30 @@ def correspondence(ctx, rest, values, comms, larges):
 def replay(ctx, obj):
     v = obj.get('violation', obj)
     inp = v.get('input', v)
-    rest = Rest()
-    fam = inp['family']
-    octets = bytes.fromhex(inp['octets'])
-    f = check_one(rest, fam, octets, view=inp.get('view', 'json_to_bin'))
-    print('replay %s %s -> %s' % (fam, inp['octets'], f))
-    return 1 if f else 0
+    se = inp.get('session') or {}
+    rest = Rest(script=se.get('script', 'first'), reads=se.get('reads_in', ()))
+    if se:
+        print('session: ' + '; '.join(rest.sequence))
+    found = 0
+    if inp['family'] == 'session':
+        rq = inp['request']
+        rest.request(rq[0], rq[1], rq[2], rq[3] == 'with credentials')
+    else:
+        if inp['family'] == 'multi':
+            attrs = {k: bytes.fromhex(h) for k, h in inp['attrs'].items()}
+        else:
+            attrs = {inp['family']: bytes.fromhex(inp['octets'])}
+        view = inp.get('view', 'json_to_bin')
+        f = check_attrs(rest, attrs, view)
+        print('replay %s via %s -> %s' % ({k: o.hex() for k, o in attrs.items()}, view, f))
+        found += 1 if f else 0
+        if inp.get('expect_equal_to_session_without_reads'):
+            got = rest.last
+            plain = Rest(script=se.get('script', 'first'), reads=())
+            check_attrs(plain, attrs, view)
+            print('with the reads   : %r\nwithout the reads: %r' % (got, plain.last))
+            found += 1 if got != plain.last else 0
+    for e in rest.effects:
+        found += 1
+        print('request with an effect: %s %s in %s changed %s' % (e['request'][0], e['request'][1], e['fsm'], e['changed']))
+    return 1 if found else 0
